@@ -333,7 +333,10 @@ class Ctx:
         cov.update(self.extra)
         ev = dict(property_id=self.pid, tier=self.tier, seed=self.seed, level="proof", coverage=cov,
                   assumptions=self.assumptions, wall_s=round(time.time() - self.t0, 2), violations=nviol)
-        p = os.path.join(VERIF, "evidence", self.pid + ".json")
+        # replays and runs against a scratch copy (VERIF_EVIDENCE_DIR) never overwrite the record of the last full run
+        d = os.environ.get("VERIF_EVIDENCE_DIR") or os.path.join(VERIF, "evidence")
+        os.makedirs(d, exist_ok=True)
+        p = os.path.join(d, self.pid + (".replay.json" if self.replay else ".json"))
         with open(p + ".tmp", "w") as f:
             json.dump(ev, f, indent=1, default=repr)
         os.replace(p + ".tmp", p)
